@@ -130,6 +130,14 @@ def parse_vspec(path):
             cur.ats.append(a)
             section = ("at", a)
             continue
+        m = re.match(r'^at\s+loop\s+(\d+)\s+after(?:\s+\[([A-Za-z0-9_.\-]+)\])?$', line)
+        if m:
+            # proof hint right after the closing brace of the n-th loop of the body (source order, as for `loop n`): the place
+            # where an inner loop's result is folded into the enclosing loop's invariant; no source fragment to lose
+            a = AtSpec(None, int(m.group(1)), "loop-after", label=m.group(2) or "")
+            cur.ats.append(a)
+            section = ("at", a)
+            continue
         m = re.match(r'^at\s+"(.*)"(?:\s+#(\d+))?\s+(before|after|replace)(?:\s+\[([A-Za-z0-9_.\-]+)\])?$', line)
         if m:
             a = AtSpec(m.group(1), int(m.group(2) or 1), m.group(3), label=m.group(4) or "")
@@ -342,12 +350,19 @@ class Unit:
                     self._log("R12-struct-slice", ty["name"], len(dropped), "dropped variants: " + ",".join(dropped))
             else:
                 text = X.r12_enum(src)
-            text = self.rewrite_common(text, ty["name"])
+            # optional `as = "<Name>"`: the type is emitted under another name (two crates define a type of the same name and
+            # both are needed in one unit, e.g. the server entity `Stream` and the SDK model `Stream`). Only the defining
+            # identifier changes; the emitted name is also the key that `only = [..]` of [[rewrite]] entries refers to.
+            tname = ty.get("as", ty["name"])
+            if ty.get("as"):
+                text = re.sub(r"\b(struct|enum)\s+" + re.escape(ty["name"]) + r"\b", r"\1 " + ty["as"], text, count=1)
+                self._log("R4-typemap", tname, 1, f"type {ty['name']} of crate {ty['crate']} is emitted as {ty['as']} (name clash between crates)")
+            text = self.rewrite_common(text, tname)
             if ty.get("derive"):
                 g.emit(f"#[derive({ty['derive']})]", kind="gen")
             for a in ty.get("attrs", []):
                 g.emit(a, kind="gen")
-            g.emit_src(text.rstrip("\n"), os.path.relpath(it.file, X.REPO), idx.line_of(it), ty["name"])
+            g.emit_src(text.rstrip("\n"), os.path.relpath(it.file, X.REPO), idx.line_of(it), tname)
             g.emit("", kind="gen")
         # functions
         default_crate = self.cfg.get("unit", {}).get("crate", "server")
@@ -382,7 +397,9 @@ class Unit:
             mm = re.match(r"\s*(?:pub\s+)?(?:open\s+|closed\s+|broadcast\s+|uninterp\s+)*(proof|spec|exec)?\s*fn\s+(\w+)", l)
             if mm:
                 self.fn_ranges.append([base + k + 1, None, mm.group(2), kind, label, mm.group(1) or "exec"])
-                if kind == "lemma" and mm.group(1) == "proof" and label:
+                if kind == "lemma" and mm.group(1) in ("proof", None) and label:
+                    # a labelled `proof fn` (lemma over spec functions) or a labelled exec `fn` (composition harness: client code
+                    # that calls extracted functions only, so that a property clause spanning two functions is one obligation)
                     self.labels[label] = dict(fn=mm.group(2), kind="lemma", line=base + k + 1, text=l.strip())
                 label = None
                 last_fn = mm.group(2)
@@ -423,6 +440,15 @@ class Unit:
                 st0 = sig(lex(text))
                 _, _, bo0 = _find_body_open(st0)
                 p0 = st0[bo0].end
+                text = text[:p0] + "\n" + "\n".join(f"{tl} /*@hint:{a.label}@*/" for tl in a.text) + text[p0:]
+                continue
+            if a.where == "loop-after":
+                st0 = sig(lex(text))
+                _, _, bo0 = _find_body_open(st0)
+                loops0 = loop_headers(st0, bo0 + 1, match_close(st0, bo0))
+                if a.nth > len(loops0):
+                    raise X.Undecided(f"lost anchor: loop {a.nth} of {fnkey} not found ({len(loops0)} loops in source)")
+                p0 = st0[match_close(st0, loops0[a.nth - 1][1])].end
                 text = text[:p0] + "\n" + "\n".join(f"{tl} /*@hint:{a.label}@*/" for tl in a.text) + text[p0:]
                 continue
             if a.where == "end":
@@ -589,7 +615,9 @@ class Unit:
                 if depth < 0:
                     b = a + t.start
                     break
-        return sp.slice_sig + " {\n" + text[a:b] + "\n" + (sp.slice_tail or "") + "\n}"
+        # the marker comment gives proof hints a stable anchor at the end of the kept statements, before the tail value
+        # (`at "/*@slice-tail@*/" before`): a slice usually ends in a loop or a block, not in a text of its own
+        return sp.slice_sig + " {\n" + text[a:b] + "\n/*@slice-tail@*/ " + (sp.slice_tail or "") + "\n}"
 
     @staticmethod
     def _stmt_start(text, pos):
